@@ -18,7 +18,7 @@ class HarnessError(Exception):
 
 class Worker:
     def __init__(self, variant: str = "plain", recycle_every: int = 1500, timeout: float = 60.0):
-        self.exe = str(VERIF / ".build" / variant / "hgv_worker")
+        self.exe = str(Path(os.environ.get("VERIF_BUILD_DIR", str(VERIF / ".build"))) / variant / "hgv_worker")
         self.recycle_every = recycle_every
         self.timeout = timeout
         self.proc = None
